@@ -626,6 +626,22 @@ def specials():
     out.append(('real-minf', R, R.clone('-inf'), [float('-inf')]))
     out.append(('real-float', R, R.clone(1.5), [1.5, (15, 10, -1)]))
     out.append(('real-zero', R, R.clone(0.0), [0.0, 0]))
+    # BIT STRING with named bits: the native form is the text of 0s and 1s, '' for the empty string
+    flags = namedval.NamedValues(('urgent', 0), ('archived', 1), ('signed', 2))
+    F = univ.BitString(namedValues=flags)
+    for bits in ('', '1', '011', '10100000', '000'):
+        out.append(('named-bits-%s' % (bits or 'empty'), F, F.clone(binValue=bits) if bits else F.clone(()), [bits]))
+    out.append(('named-bits-by-name', F, F.clone(binValue='011'), ['archived, signed', '011']))
+    FT = univ.Sequence(componentType=namedtype.NamedTypes(namedtype.NamedType('f', F), namedtype.OptionalNamedType('n', univ.Integer()),
+                                                          namedtype.NamedType('l', univ.SequenceOf(componentType=F))))
+    fo = FT.clone()
+    fo['f'] = F.clone(())
+    fo['l'].extend([F.clone(()), F.clone(binValue='01')])
+    out.append(('named-bits-empty-in-record', FT, fo, [{'f': '', 'l': ['', '01']}]))
+    FC = univ.Choice(componentType=namedtype.NamedTypes(namedtype.NamedType('f', F), namedtype.NamedType('n', univ.Integer())))
+    fc = FC.clone()
+    fc['f'] = F.clone(())
+    out.append(('named-bits-empty-in-choice', FC, fc, [{'f': ''}]))
     # lists whose positions were assigned out of order (the stored mapping is not in positional order)
     for cls, nm in ((univ.SequenceOf, 'seqof'), (univ.SetOf, 'setof')):
         LT = cls(componentType=univ.Integer())
